@@ -43,7 +43,7 @@ Proof.
   - cbn [qok] in Hq. cbn [emit_node] in E.
     match type of E with (do rc <- ?r; _) = _ => destruct r as [e|[cc ec]] eqn:Ec; cbn [bindR] in E; [discriminate|] end.
     inversion E; subst. cbn [ng]. rewrite (IHc Hq _ _ _ _ _ Ec). cbn [es_groups]. lia.
-  - cbn [qok] in Hq. cbn [emit_node] in E.
+  - cbn [qok] in Hq. apply andb_true_iff in Hq as [Hq _]. cbn [emit_node] in E.
     match type of E with (do rc <- ?r; _) = _ => destruct r as [e|[cc ec]] eqn:Ec; cbn [bindR] in E; [discriminate|] end.
     inversion E; subst. cbn [ng]. rewrite (IHc Hq _ _ _ _ _ Ec). reflexivity.
   - cbn [qok] in Hq. apply andb_true_iff in Hq as [Hq1 _]. apply andb_true_iff in Hq1 as [Hq1 _]. cbn [emit_node] in E.
